@@ -1,5 +1,5 @@
 (* C09 - transport containment: peer bytes cause only protocol errors or timeouts. Statements only. *)
-From MS Require Import lib.Base gen.GenLan crypto.Modes model.Lan model.Session proofs.ContainProofs proofs.SessionProofs proofs.SessionHoare.
+From MS Require Import lib.Base gen.GenLan crypto.Modes model.Lan model.Session proofs.ContainProofs proofs.SessionProofs proofs.SessionHoare proofs.SessionHistory.
 Local Open Scope N_scope.
 
 (* byte level, EVERY byte string: the V2 packet decoder, the V3 packet processor (with or without a session key) and
@@ -36,6 +36,14 @@ Print Assumptions C09_send.
 Print Assumptions C09_authenticate.
 Print Assumptions C09_device_send.
 Print Assumptions C09_device_authenticate.
+
+(* whole histories: whatever sequence of exchanges, authentications (retry budget >= 1), device-level calls, waits and lifetime
+   changes is run against whatever environment, EVERY operation of it ends in its result, a ProtocolError, an AuthenticationError or
+   a TimeoutError (no state a failure leaves behind - half-open connections, stale expiry times, missing protocol objects - makes a
+   later operation end in anything else) *)
+Theorem C09_history : forall os w, Forall op_ok os -> Forall out_ok (fst (run_ops os w)).
+Proof. exact history_contained. Qed.
+Print Assumptions C09_history.
 
 Example C09_nonvacuous :
   v2_decode [90; 90; 1; 17; 56; 0; 32; 0] = Err EProtocol
